@@ -750,7 +750,66 @@ static std::string runTraceChild(const std::string &proc, bool &retry)
   return out.str();
 }
 
-static std::string opSave(const std::string &proc)
+// saveseq: the recording threads run strictly one after the other (each is joined before the next starts), so a later
+// thread may get the std::thread::id of an earlier one. What the property still determines: the file is a well-formed
+// array and every recorded event is in it (events are counted by their canonical text, regardless of the tid they
+// are filed under).
+static std::string runTraceSeqChild(const std::string &proc, bool &retry)
+{
+  retry = false;
+  for (auto &kv : g_progs) {
+    std::thread th([&kv] {
+      for (const Ev &e : kv.second) {
+        switch (e.kind) {
+        case 'B': tracing::beginEvent(e.name, e.cat); break;
+        case 'E': tracing::endEvent(); break;
+        case 'M': tracing::setMarker(e.name, e.cat); break;
+        case 'C': tracing::setCounter(e.name, e.value); break;
+        case 'N': tracing::setThreadName(e.name); break;
+        case 'Z': std::this_thread::sleep_for(std::chrono::microseconds(150)); break;
+        }
+      }
+    });
+    th.join();
+  }
+  std::string fn = g_dir + "/trace.json";
+  remove(fn.c_str());
+  tracing::saveLog(fn.c_str(), proc == "-" ? nullptr : proc.c_str());
+  std::string text;
+  if (!readFile(fn, text))
+    return "malformed:no-file";
+  JV doc;
+  JParser jp(text);
+  if (!jp.document(doc)) {
+    if (jp.err.compare(0, 3, "nan") == 0)
+      retry = true;
+    return "malformed:" + jp.err;
+  }
+  if (doc.kind != JV::ARR)
+    return "malformed:not-an-array";
+  std::map<std::string, long> count;
+  long total = 0;
+  bool shapeOk = true;
+  for (const JV &o : doc.items) {
+    if (o.kind != JV::OBJ) { shapeOk = false; continue; }
+    const JV *ph = o.get("ph");
+    if (!ph || ph->kind != JV::STR) { shapeOk = false; continue; }
+    if (ph->text == "M") continue;
+    const JV *name = o.get("name"), *cat = o.get("cat");
+    if (ph->text == "C" && cat && cat->kind == JV::STR && cat->text == "builtin" && name && name->kind == JV::STR
+        && name->text == "cpuUtilization")
+      continue;
+    count[canonEvent(ph->text, o, shapeOk)]++;
+    ++total;
+  }
+  std::ostringstream out;
+  out << "seq shape=" << vh::bit(shapeOk) << " n=" << total;
+  for (auto &kv : count)
+    out << " " << kv.first << "x" << kv.second;
+  return out.str();
+}
+
+static std::string opSave(const std::string &proc, bool sequential = false)
 {
   for (int attempt = 0; attempt < 4; ++attempt) {
     int fds[2];
@@ -766,7 +825,7 @@ static std::string opSave(const std::string &proc)
       bool retry = false;
       std::string r;
       try {
-        r = runTraceChild(proc, retry);
+        r = sequential ? runTraceSeqChild(proc, retry) : runTraceChild(proc, retry);
       } catch (const std::exception &e) {
         r = std::string("uncaught:") + typeid(e).name();
       }
@@ -835,6 +894,8 @@ int main(int argc, char **argv)
     }
     if (w[0] == "save" && w.size() == 2)
       return opSave(w[1]);
+    if (w[0] == "saveseq" && w.size() == 2)
+      return opSave(w[1], true);
     return "bad-op";
   };
   int rc = vh::run(reset, step);
